@@ -33,8 +33,11 @@ Cmds ==
   \cup {<<L_expire, kk, B(n)>> \o o : n \in {1, 2, 0, -1}, o \in ExpOpts}    \* non-positive times with options too: a vetoed one must change nothing (seed C06-r3)
   \cup {<<L_persist, kk>>, <<L_ttl, kk>>, <<L_get, kk>>, <<L_exists, kk>>, <<L_del, kk>>, <<L_strlen, kk>>, <<L_type, kk>>, <<L_keys, L_star>>,
         <<L_append, kk, vb>>, <<L_setnx, kk, vb>>, <<L_getrange, kk, B(0), B(-1)>>, <<L_mget, kk, k2>>}
+   ELSE IF "strcore" \in Groups THEN   \* the few deadline commands the second-key group needs
+       {<<L_set, kk, va>>, <<L_set, kk, va, L_ex, B(1)>>, <<L_set, kk, vb, L_keepttl>>, <<L_expire, kk, B(1)>>, <<L_expire, kk, B(2)>>, <<L_persist, kk>>,
+        <<L_ttl, kk>>, <<L_get, kk>>, <<L_del, kk>>, <<L_keys, L_star>>}
    ELSE {<<L_keys, L_star>>})
-  \cup (IF "strdeep" \in Groups THEN {<<L_rename, kk, k2>>, <<L_rename, k2, kk>>, <<L_ttl, k2>>, <<L_get, k2>>, <<L_mset, kk, va, k2, vb>>, <<L_incr, kk>>} ELSE {})
+  \cup (IF "strdeep" \in Groups THEN {<<L_rename, kk, k2>>, <<L_rename, k2, kk>>, <<L_ttl, k2>>, <<L_get, k2>>, <<L_mset, kk, va, k2, vb>>} ELSE {})   \* (no INCR: it walks through 99 values within the length bound)
   \cup (IF "list" \in Groups THEN {<<L_rpush, lk, va>>, <<L_expire, lk, B(1)>>, <<L_llen, lk>>, <<L_lrange, lk, B(0), B(-1)>>, <<L_lpush, lk, vb>>, <<L_lpop, lk>>, <<L_ttl, lk>>} ELSE {})
   \cup (IF "agg" \in Groups THEN
          {<<L_hset, hk, va, vb>>, <<L_expire, hk, B(1)>>, <<L_hget, hk, va>>, <<L_hlen, hk>>, <<L_hdel, hk, va>>, <<L_hset, hk, vb, va>>,
